@@ -104,7 +104,32 @@ EnvBounds(env, go, t, sp, g) ==
 TermVal(tm, start, stop) == tm.cs * start + tm.ce * stop + tm.c
 UserBox(sp, g) == GBox(TermVal(sp.is, GStart, XStop(g)), TermVal(sp.ie, GStart, XStop(g)),
                        TermVal(sp.os, GStart, YStop(g)), TermVal(sp.oe, GStart, YStop(g)))
-IsBuiltin(sp) == sp.name \in BuiltinSpaces
+Term(cs, ce, c) == [cs |-> cs, ce |-> ce, c |-> c]
+NoTerm   == Term(0, 0, 0)
+\* the entry of a built-in space (also: a space given by its name only)
+Builtin(name) == [name |-> name, os |-> NoTerm, oe |-> NoTerm, is |-> NoTerm, ie |-> NoTerm]
+IsBuiltin(sp)   == sp.name \in BuiltinSpaces /\ sp = Builtin(sp.name)
+\* a built-in *name* that the configuration file gave bounds for one (offset, type)
+IsRedefined(sp) == sp.name \in BuiltinSpaces /\ sp # Builtin(sp.name)
+
+\* ------------------------- the configured bounds: a process-wide table
+\* key = <<offset, point type, space name>>.  GOLoop.setup_bounds() enters the
+\* built-in names for every supported offset and point type; every line of an
+\* ITERATION-SPACES entry of a configuration file is one GOLoop.add_bounds()
+\* ("current_bounds[offset][type][name] = bounds"): the last definition of a
+\* key wins, other keys are untouched, and nothing is ever removed - loading
+\* another configuration file in the same process only adds / overwrites.
+InitTable == [key \in Offsets \X PointTypes \X BuiltinSpaces |-> Builtin(key[3])]
+AddBounds(tab, key, sp) == [x \in DOMAIN tab \cup {key} |-> IF x = key THEN sp ELSE tab[x]]
+LineKey(ln) == <<ln.off, ln.pt, ln.sp.name>>
+RECURSIVE LoadLines(_, _, _)
+LoadLines(tab, lines, i) ==           \* one configuration file = its lines in order
+  IF i > Len(lines) THEN tab ELSE LoadLines(AddBounds(tab, LineKey(lines[i]), lines[i].sp), lines, i + 1)
+RECURSIVE LoadSteps(_, _, _)
+LoadSteps(tab, steps, n) ==           \* the files loaded so far, in order
+  IF n = 0 THEN tab ELSE LoadLines(LoadSteps(tab, steps, n - 1), steps[n], 1)
+Undefined == Builtin("#undefined")
+Lookup(tab, key) == IF key \in DOMAIN tab THEN tab[key] ELSE Undefined
 
 \* ------------------------------------------------- the region of a kernel
 \* k = [off, pt, sp]; pt is also the type of the kernel's iteration-space field
@@ -112,6 +137,14 @@ KernelRegion(k, env, go, g) ==
   IF ~IsBuiltin(k.sp) THEN GPoints(UserBox(k.sp, g))
   ELSE IF k.pt = "go_every" THEN DataArray(g)
   ELSE GPoints(EnvBounds(env, go, k.pt, k.sp.name, g))
+\* with a re-defined built-in name: the default loops are documented to use the
+\* field's internal/whole members whatever the table says; only the constant-
+\* loop-bounds form reads the table
+KernelRegionF(k, clb, env, go, g) ==
+  IF IsRedefined(k.sp) /\ ~clb /\ k.pt # "go_every"
+  THEN KernelRegion([k EXCEPT !.sp = Builtin(k.sp.name)], env, go, g)
+  ELSE IF IsRedefined(k.sp) /\ k.pt = "go_every" THEN DataArray(g)
+  ELSE KernelRegion(k, env, go, g)
 
 \* points a built-in region must contain / may not leave
 MustContain(k, go, g) ==
@@ -150,9 +183,6 @@ BoxLog(n, b, i, j) == IF j > b.ye \/ b.xs > b.xe THEN <<>>
 \* Design level: the built-in regions of the reference environment and a
 \* family of user-defined spaces satisfy the clauses on every grid; also the
 \* generator of the case family handed to the harness (cfg *_gen_*).
-Term(cs, ce, c) == [cs |-> cs, ce |-> ce, c |-> c]
-NoTerm   == Term(0, 0, 0)
-Builtin(name) == [name |-> name, os |-> NoTerm, oe |-> NoTerm, is |-> NoTerm, ie |-> NoTerm]
 IntervalSeq == << <<Term(1, 0, 0), Term(0, 1, 0)>>,    \* {start}:{stop}
                  <<Term(1, 0, -1), Term(0, 1, 1)>>,   \* {start}-1:{stop}+1
                  <<Term(0, 0, 1), Term(0, 1, -1)>>,   \* 1:{stop}-1
@@ -215,7 +245,7 @@ Hists2Core == {<<"MOVE1", "MOVE2", "FUSE">>, <<"FUSE", "CLB", "MOVE1">>, <<"CLB"
 Thorough == (Tier = "thorough")
 
 \* F1: one kernel, every offset x point type x built-in space
-Fam1 == {[fam |-> "F1", kernels |-> <<K(o, t, Builtin(s))>>,
+Fam1 == {[fam |-> "F1", steps |-> <<>>, kernels |-> <<K(o, t, Builtin(s))>>,
           hists |-> Hists1(IF Thorough THEN 3 ELSE 2)] :
          o \in Offsets, t \in PointTypes, s \in BuiltinSpaces}
 \* F2: two kernels, fusion histories
@@ -226,15 +256,17 @@ TypePairs == {<<"go_cu", "go_cu">>, <<"go_ct", "go_ct">>, <<"go_cf", "go_cf">>, 
               <<"go_every", "go_every">>, <<"go_ct", "go_every">>}
 SpPairs   == {<<"go_internal_pts", "go_internal_pts">>, <<"go_all_pts", "go_all_pts">>,
               <<"go_internal_pts", "go_all_pts">>}
-Fam2 == {[fam |-> "F2", kernels |-> <<K(op[1], tp[1], Builtin(sp[1])), K(op[2], tp[2], Builtin(sp[2]))>>,
-          hists |-> IF Thorough THEN Hists2(3) ELSE Hists2(2) \cup Hists2Core] :
+Fam2 == {[fam |-> "F2", steps |-> <<>>, kernels |-> <<K(op[1], tp[1], Builtin(sp[1])), K(op[2], tp[2], Builtin(sp[2]))>>,
+          hists |-> IF Thorough
+                    THEN {h \in Hists2(3) : Len(h) <= 2 \/ \E a \in DOMAIN h : h[a] = "CLB"} \cup Hists2Core
+                    ELSE Hists2(2) \cup Hists2Core] :
          op \in OffPairs, tp \in TypePairs, sp \in SpPairs}
 \* F3: one kernel with a user-defined space; (offset, type) rotate with the space
 OffSeq  == <<"go_offset_sw", "go_offset_ne", "go_offset_any">>
 TypeSeq == <<"go_ct", "go_cu", "go_cv", "go_cf">>
 HistsUser == {<<"CLB">>, <<"MOVE1">>, <<"OMP">>, <<"EXT">>, <<"CLB", "MOVE1">>, <<"MOVE1", "CLB">>,
               <<"ACC", "CLB">>}
-Fam3 == {[fam |-> "F3",
+Fam3 == {[fam |-> "F3", steps |-> <<>>,
           kernels |-> <<K(OffSeq[((a + b) % 3) + 1], TypeSeq[((a + 2 * b) % 4) + 1],
                           UserSpace("go_us1", IntervalSeq[a], IntervalSeq[b]))>>,
           hists |-> HistsUser] : a \in 1..NI, b \in 1..NI}
@@ -243,7 +275,7 @@ Fam3 == {[fam |-> "F3",
 \* go_offset_any next to one with a definite offset) with different bounds
 HistsUser2 == {<<"FUSE">>, <<"FUSE", "CLB">>, <<"CLB", "FUSE">>, <<"MOVE1", "MOVE2", "FUSE">>,
                <<"FUSE", "OMP">>, <<"FUSEO">>}
-Fam4 == {[fam |-> "F4",
+Fam4 == {[fam |-> "F4", steps |-> <<>>,
           kernels |-> <<K(op[1], t, UserSpace("go_us1", IntervalSeq[a], IntervalSeq[b])),
                         K(op[2], t, UserSpace(IF same THEN "go_us1" ELSE "go_us2",
                                                IntervalSeq[IF op[1] = op[2] /\ same THEN a ELSE c],
@@ -251,7 +283,49 @@ Fam4 == {[fam |-> "F4",
           hists |-> HistsUser2] :
          op \in {<<"go_offset_sw", "go_offset_sw">>, <<"go_offset_ne", "go_offset_any">>},
          t \in {"go_ct", "go_cu"}, a \in {1, 2}, b \in {1, 3}, c \in {2, 5}, same \in BOOLEAN}
-Family == Fam1 \cup Fam2 \cup Fam3 \cup Fam4
+\* F5: configuration histories in one process.  steps[n] = the ITERATION-SPACES
+\* lines of the n-th configuration file loaded; after every load the invoke is
+\* generated with default loops and with constant loop bounds.  The kernel's
+\* space is given by name only: its bounds are whatever the table holds.
+Line(key, name, oi, ii) == [off |-> key[1], pt |-> key[2], sp |-> UserSpace(name, oi, ii)]
+IV(n) == IntervalSeq[n]
+KeyPairs == {<<<<"go_offset_sw", "go_ct">>, <<"go_offset_sw", "go_cu">>>>,
+             <<<<"go_offset_ne", "go_cu">>, <<"go_offset_ne", "go_ct">>>>,
+             <<<<"go_offset_any", "go_cf">>, <<"go_offset_sw", "go_cf">>>>,
+             <<<<"go_offset_sw", "go_cv">>, <<"go_offset_any", "go_cv">>>>}
+BoundPairs == IF Thorough
+              THEN {<<1, 2, 1, 1>>, <<4, 5, 1, 1>>, <<1, 1, 3, 7>>, <<2, 1, 5, 4>>, <<1, 3, 2, 2>>, <<7, 4, 1, 5>>}
+              ELSE {<<1, 2, 1, 1>>, <<2, 3, 5, 1>>}     \* <<outerA, outerB, innerA, innerB>>
+Scenarios(kk, o, bp, nm) ==
+  LET A == Line(kk, nm, IV(bp[1]), IV(bp[3]))   B == Line(kk, nm, IV(bp[2]), IV(bp[4]))
+      OA == Line(o, nm, IV(bp[2]), IV(bp[4]))   OB == Line(o, nm, IV(bp[1]), IV(bp[4])) IN
+  {<< <<A>>, <<B>> >>,                     \* re-defined by a second file
+   << <<A>>, <<B>>, <<A>> >>,              \* ... and back
+   << <<A, B>> >>,                         \* twice in one file: the last one wins
+   << <<B, A>>, <<A, B>> >>,
+   << <<A, OA>>, <<OB, B>> >>,             \* same name for another (offset, type): no interference
+   << <<A>>, <<OA>> >>,                    \* ... a file that only defines the other key
+   << <<OA, A>> >>,
+   << <<>>, <<A>>, <<B>> >>}               \* first file without the space (refused), then defined
+Fam5 == UNION {{[fam |-> "F5", steps |-> st, kernels |-> <<K(x[1][1][1], x[1][1][2], Builtin(x[3]))>>,
+                 hists |-> {<<"CLB">>}] : st \in Scenarios(x[1][1], x[1][2], x[2], x[3])} :
+               x \in KeyPairs \X BoundPairs \X {"go_us1", "go_internal_pts", "go_all_pts"}}
+\* (for nm a built-in name the first scenario step also exercises "re-defines a
+\* built-in name for one (offset, point type)")
+Family == Fam1 \cup Fam2 \cup Fam3 \cup Fam4 \cup Fam5
+
+\* design level of the table: last definition wins, other keys untouched
+TKeys   == {<<"go_offset_sw", "go_ct", "go_us1">>, <<"go_offset_ne", "go_ct", "go_us1">>,
+            <<"go_offset_sw", "go_ct", "go_internal_pts">>}
+TSpaces(key) == {UserSpace(key[3], IV(1), IV(2)), UserSpace(key[3], IV(2), IV(1))}
+InitTab == sel = [tab |-> InitTable, last |-> <<>>]
+NextTab == \E key \in TKeys : \E sp \in TSpaces(key) :
+             sel' = [tab |-> AddBounds(sel.tab, key, sp), last |-> <<key, sp>>]
+InvLastWins == sel.last # <<>> => Lookup(sel.tab, sel.last[1]) = sel.last[2]
+InvBuiltinsStay == \A key \in DOMAIN InitTable :
+                     key \notin TKeys => sel.tab[key] = InitTable[key]
+PropNoInterference == [][\A key \in DOMAIN sel.tab :
+                           key # sel'.last[1] => sel'.tab[key] = sel.tab[key]]_sel
 
 InitGen == /\ sel \in Family
            /\ PrintT("CASE " \o ToJson(sel))
